@@ -86,6 +86,7 @@ Definition jwt_oracles_of (input : json) (token : string) : jwt_oracles :=
 
 Definition accept_oracle (expect : string) (what : string) (o : json) : option string :=
   if String.eqb expect "any" then None
+  else if String.eqb expect "nopanic" then (if obs_is "panic" o then Some (what ++ " panics") else None)
   else if obs_is "panic" o then Some (what ++ " panics")
   else if String.eqb expect "accept" && negb (obs_is "ok" o) then Some (what ++ " rejects a token that satisfies the policy")
   else if String.eqb expect "reject" && negb (obs_is "err" o) then Some (what ++ " accepts a token it must reject")
